@@ -39,6 +39,7 @@ def golden_env(tier):
 
 
 PROPS = {
+    "C12": seq_check("c12", "model_checking", ["states are merged when the in-package dump of the complete writer state (err, state pointer nil-ness, flags, stack, tables, buffer length+hash) and the handle slots are equal: equal dumps have equal futures because the dump covers every field the writer reads", "first ops are distributed over shards with independent seen-sets (duplicates cost time only)"]),
     "C17": seq_check("c17", "exploration", ["allocation behaviour is measured with testing.AllocsPerRun with the GC disabled (pool eviction by the GC is outside the steady-state claim)", "ValueList.Values()/MessageList.Values()/Clone allocate by design and are not part of the read walk"]),
     "C13": seq_check("c13", "exploration", ["locality is compared through a fingerprint of all from-the-end decoders (64-bit FNV; a collision could hide a difference)"]),
     "C02": seq_check("c02", "exploration", ["an out-of-bounds read is observable only if it crosses the input boundary into the PROT_NONE guard page (inputs are placed flush at both ends of the guarded region); returned slices are checked by pointer arithmetic", "List.Get/GetBytes are only called with 0<=i<Len (documented to panic otherwise)", "the generated struct decoder is a hand copy of the generator template decode_method for struct{int32;string}"]),
